@@ -27,3 +27,21 @@ CHECKS["C11"] = dict(engine="choice", level="model_checking", ref="DESIGN.md 6 C
     text=_A + "Oracle (relational, two paths through the real code): decoder's returned object == events_to_obj(events); obj_to_events of either == decoded events (length, path, type, value, value class); Canonical(bytes) and Canonical(obj) agree; re-encoding the object gives the input.",
     note="Same bounds as C01 without streams (C09 covers events_to_objs). Equality is Python ==.",
     technique="stateless deviation-bounded exploration of the real code with a differential (round-trip) oracle")
+ENGINES.append({"name": "faultspace", "path": "vlib/faultspace.py, vlib/faults.py, vlib/oracle.py", "serves_properties": ["C03", "C04", "C05", "C13"], "kind_free_text": "base cases from engine A x complete fault families (size perturbation, value corruption, cut points, suffixes, byte substitution), each run of the real decoder compared with the strict reference decoder"})
+_F = "Base cases: every non-union type in a minimal and a rich variant, every command code as command (0/1/2 sessions, decrypt session), response (plain, failed, session, encrypted) and stream (pair, pair with sessions, command only); quick: 0 deviations, thorough: <= 1 deviation around each. "
+CHECKS["C03"] = dict(engine="faultspace", level="fault_enumeration", ref="DESIGN.md 6 C03, 4.2",
+    text=_F + "Every size-like field of every base case is perturbed by +-1, +-2, set to 0, 1, the width maximum and the values reaching exactly / just past the end of the input (thorough: ordered pairs of fields). The strict run of the real decoder must agree with the reference decoder in outcome class, constraint path, limit, bytes counted, violator, exceeded-by / value and in the events emitted before. The run fails its own sanity check unless anticipated, exceeded, subceeded, depleted and accepted outcomes all occur.",
+    note="Trusts the reference decoder's reading of 'earliest decidable' (DESIGN 4.2, D1-D4). The engine-B part (all byte strings over small alphabets for nested synthetic TPM2B/list types) is served by C06's check.",
+    technique="exhaustive fault enumeration over bounded base cases, real decoder vs reference model")
+CHECKS["C04"] = dict(engine="faultspace", level="fault_enumeration", ref="DESIGN.md 6 C04",
+    text=_F + "Every constrained primitive field is replaced by every value just outside each interval of its allowed set, 0, the width limits and a far value (must be rejected with the first offending field, its type, value and allowed set, no event for it) and by every boundary / member / representative inside (must be accepted or fail exactly as the reference says when a selector changes the layout); thorough: ordered pairs of corrupted fields.",
+    note="Allowed sets come from the pin. 32-bit sets are covered at interval boundaries and representatives.",
+    technique="exhaustive fault enumeration (boundary values of every constrained field), real decoder vs reference model")
+CHECKS["C05"] = dict(engine="faultspace", level="fault_enumeration", ref="DESIGN.md 6 C05",
+    text=_F + "Every cut point 0..len-1 of every base case (the empty input included) and three appended suffixes (1 byte, 2 bytes, a whole further message). Oracle: reference decoder: depleted after exactly the complete fields' events, superfluous with exactly the surplus, command code of the last decoded command, clean end of a stream only at a message boundary.",
+    note="D5 pins which command code the errors carry.",
+    technique="exhaustive crash-point (truncation) and suffix enumeration, real decoder vs reference model")
+CHECKS["C13"] = dict(engine="faultspace", level="fault_enumeration", ref="DESIGN.md 6 C13",
+    text=_F + "All strict rejections of the size, value and byte-substitution fault families, plus every fault moved to the end of the input (cut 0..2 bytes after the faulty field). Oracle: bytes(error.bytes_remaining) == input[reference offset:], and model-free: emitted field widths + consumed offending bytes + remaining == input length, remaining is a suffix.",
+    note="The reference decoder defines 'consumed'; the accounting identity is independent of it.",
+    technique="exhaustive fault enumeration incl. end-of-input placements, reference offsets + model-free byte accounting")
